@@ -375,16 +375,26 @@ class CryptographyEngine(api.CryptographicEngine):
                 hashing_algorithm=hashing_algorithm
             )
         else:
-            return self._encrypt_symmetric(
-                encryption_algorithm,
-                encryption_key,
-                plain_text,
-                cipher_mode=cipher_mode,
-                padding_method=padding_method,
-                iv_nonce=iv_nonce,
-                auth_additional_data=auth_additional_data,
-                auth_tag_length=auth_tag_length
-            )
+            try:
+                return self._encrypt_symmetric(
+                    encryption_algorithm,
+                    encryption_key,
+                    plain_text,
+                    cipher_mode=cipher_mode,
+                    padding_method=padding_method,
+                    iv_nonce=iv_nonce,
+                    auth_additional_data=auth_additional_data,
+                    auth_tag_length=auth_tag_length
+                )
+            except exceptions.KmipError:
+                raise
+            except Exception as e:
+                # E.g., an IV or tag length the backend rejects.
+                self.logger.exception(e)
+                raise exceptions.CryptographicFailure(
+                    "The encryption could not be completed with the given "
+                    "cryptographic parameters."
+                )
 
     def _encrypt_symmetric(
             self,
@@ -731,16 +741,27 @@ class CryptographyEngine(api.CryptographicEngine):
                 hashing_algorithm=hashing_algorithm
             )
         else:
-            return self._decrypt_symmetric(
-                decryption_algorithm,
-                decryption_key,
-                cipher_text,
-                cipher_mode=cipher_mode,
-                padding_method=padding_method,
-                iv_nonce=iv_nonce,
-                auth_additional_data=auth_additional_data,
-                auth_tag=auth_tag
-            )
+            try:
+                return self._decrypt_symmetric(
+                    decryption_algorithm,
+                    decryption_key,
+                    cipher_text,
+                    cipher_mode=cipher_mode,
+                    padding_method=padding_method,
+                    iv_nonce=iv_nonce,
+                    auth_additional_data=auth_additional_data,
+                    auth_tag=auth_tag
+                )
+            except exceptions.KmipError:
+                raise
+            except Exception as e:
+                # E.g., invalid padding bytes or a failed authentication tag
+                # check: the cipher text does not belong to this key.
+                self.logger.exception(e)
+                raise exceptions.CryptographicFailure(
+                    "The decryption could not be completed with the given "
+                    "cipher text and cryptographic parameters."
+                )
 
     def _decrypt_symmetric(
             self,
